@@ -22,8 +22,9 @@ import xml.etree.ElementTree as ET
 
 pid, k = sys.argv[1].upper(), sys.argv[2]
 skip_tests = "--skip-tests" in sys.argv
-WT = "/tmp/seed/wt_%s" % pid
-OUT = "/tmp/seed/out_%s" % pid
+TAG = os.environ.get("SEED_TAG", "")
+WT = "/tmp/seed/wt%s_%s" % (TAG, pid)
+OUT = "/tmp/seed/out%s_%s" % (os.environ.get("SEED_TAG", ""), pid)
 patch = os.path.join(OUT, "patch%s.diff" % k)
 demo = os.path.join(OUT, "demo%s.py" % k)
 note = os.path.join(OUT, "note%s.md" % k)
